@@ -158,6 +158,71 @@ def gen_case(rng: random.Random, cfg: str | None = None, max_nodes: int = 8, fra
     return spec
 
 
+def gen_big_case(rng: random.Random) -> dict:
+    """a LARGE structure: 45-70 frames, a track that spans all of them (so a leaf has dozens of
+    ancestors), divisions with multi-pixel sibling branches, several lineages, node ids of the
+    common `frame * K + label` scheme (spread over a wide numeric range). Size- and range-dependent
+    code paths (numpy's sort-based set operations, chunked loops, caches keyed by small ints) are
+    only reached by inputs of this kind."""
+    T = rng.randint(45, 70)
+    K = rng.choice([1000, 1000, 1000, 10000])
+    shape = (T, 5, 5)
+    frame = 25
+    nodes: list[dict] = []
+    edges: list[dict] = []
+    data = [0] * (T * frame)
+    slots_used: dict[int, int] = {}
+
+    def new_node(t: int) -> int | None:
+        j = slots_used.get(t, 0) + 1
+        if j > 4:
+            return None
+        slots_used[t] = j
+        nid = t * K + j
+        nodes.append({"id": nid, "time": t, "pos": rng.randrange(1, 50)})
+        free = [o for o in range(frame) if data[t * frame + o] == 0]
+        k = rng.randint(2, 4)
+        start = rng.choice(free)
+        chosen = [start]
+        for o in free:
+            if len(chosen) >= k:
+                break
+            if o != start and any(abs(o - c) in (1, 5) for c in chosen):
+                chosen.append(o)
+        for o in chosen:
+            data[t * frame + o] = nid
+        return nid
+
+    def grow(t0: int, t1: int, parent: int | None, depth: int) -> None:
+        prev = parent
+        t = t0
+        while t < t1:
+            n = new_node(t)
+            if n is None:
+                return
+            if prev is not None:
+                edges.append({"u": prev, "v": n})
+            prev = n
+            if depth < 2 and t + 2 < t1 and rng.random() < 0.08:
+                # division: a sibling branch of a few frames, the main branch goes on
+                grow(t + 1, min(t1, t + 1 + rng.randint(2, 8)), prev, depth + 1)
+            t += 1 if rng.random() < 0.9 else 2  # occasional skip edge
+
+    grow(0, T, None, 0)
+    for _ in range(rng.randint(1, 2)):
+        a = rng.randrange(0, T - 5)
+        grow(a, min(T, a + rng.randint(3, 25)), None, 1)
+    spec: dict[str, Any] = {"cfg": "seg", "ndim": 3, "with_ids": True, "shape": list(shape), "seg": data,
+                            "scale": None, "enable": [], "seg_dtype": rng.choice(["int32", "uint32", "int64"]),
+                            "big": True}
+    assign_ids(rng, nodes, edges)
+    rng.shuffle(nodes)
+    rng.shuffle(edges)
+    spec["nodes"] = nodes
+    spec["edges"] = edges
+    return spec
+
+
 # ---- operation choice ----------------------------------------------------------------------
 
 def pick_node(rng, tracks, fresh_ok=False):
